@@ -9,6 +9,7 @@ from lark.indenter import Indenter, DedentError
 from lark.exceptions import UnexpectedInput, LarkError
 from lark.reconstruct import Reconstructor
 import lark.lexer as LX, lark.lark as LL, lark.parser_frontends as PF, lark.tree_matcher as TM
+import lark.parsers.earley as EA, lark.parsers.earley_forest as EF, lark.parsers.xearley as XE, lark.parsers.lalr_parser as LP, lark.parsers.lalr_parser_state as LPS
 
 ID = 'C10'
 LEVEL = 'exploration'
@@ -19,7 +20,8 @@ RULE = ('(A) generated call histories on one long-lived instance per configurati
         'or exception class and position) must equal that of the same call on a fresh instance. (B) owned thread schedules: two threads '
         'call parse/lex/scan on one freshly constructed instance under a sys.settrace scheduler that runs one thread at a time and switches '
         'at chosen line events inside the functions that lazily initialise shared state; ALL schedules with <= 2 pre-emptions over the '
-        'yield points are enumerated (<= 3 sampled in thorough); each thread\'s outcome must equal the sequential outcome. Non-trivial = '
+        'yield points are enumerated (<= 3 sampled in thorough); for the parser engines (Earley driver, forest-to-tree conversion, LALR driver) every '
+        'single pre-emption at every line is enumerated; each thread\'s outcome must equal the sequential outcome. Non-trivial = '
         '(A) history with a failed or abandoned call before the checked one, (B) schedule with a pre-emption inside a lazily-'
         'initialising function; distinct = history / (configuration, schedule)')
 ASSUMPTIONS = ['thread interleavings are explored at line granularity inside the traced functions; operations inside C code are atomic under the GIL',
@@ -180,6 +182,24 @@ SCHED_CONFIGS = {
 }
 
 
+# the parser engines: everything the parser object keeps between calls is read here; one pre-emption (the other thread runs a whole
+# call in between) at every line of the Earley driver / forest-to-tree conversion / LALR driver
+G_AMB = 'start: e\ne: e "+" e | N\nN: /[0-9]/\n%ignore " "\n'
+ENGINE_FILES = {EA.__file__, EF.__file__, XE.__file__, LP.__file__, LPS.__file__}
+ENGINE_FUNCS = {'parse', '_parse', 'transform', 'visit', 'parse_from_state', 'feed_token'}
+ENGINE_CONFIGS = {
+    'engine-earley-resolve': (lambda: Lark(G_AMB, parser='earley'), 'parse', '1+2+3'),
+    'engine-earley-explicit': (lambda: Lark(G_AMB, parser='earley', ambiguity='explicit'), 'parse', '1+2+3'),
+    'engine-earley-basic-stmt': (lambda: Lark(G_STMT, parser='earley', lexer='basic'), 'parse', 'a = b + 2 ;'),
+    'engine-lalr': (lambda: Lark(G_STMT, parser='lalr'), 'parse', 'a = b + 2 ; if c;'),
+}
+SCHED_CONFIGS.update(ENGINE_CONFIGS)
+
+
+def _traced(name):
+    return (ENGINE_FILES, ENGINE_FUNCS) if name in ENGINE_CONFIGS else (FILES, FUNCS)
+
+
 def thread_call(p, op, text):
     try:
         if op == 'parse': return norm(p.parse(text))
@@ -196,7 +216,7 @@ def sequential(name):
     if name not in _seq_cache:
         mk, op, text = SCHED_CONFIGS[name]
         want = thread_call(mk(), op, text)
-        s = sched.Sched([], FILES, FUNCS)
+        s = sched.Sched([], *_traced(name))
         p = mk()
         s.run({'A': lambda: thread_call(p, op, text), 'B': lambda: thread_call(p, op, text)})
         lazy = [i for i, (fn, _ln) in enumerate(s.points) if fn in ('_build_scanner', 'scanner', 'search_scanner', '_get_width')]
@@ -209,7 +229,7 @@ def check_schedule(case, ctx):
     mk, op, text = SCHED_CONFIGS[name]
     want, npoints, lazy = sequential(name)
     p = mk()
-    s = sched.Sched(switch, FILES, FUNCS)
+    s = sched.Sched(switch, *_traced(name))
     try:
         r = s.run({'A': lambda: thread_call(p, op, text), 'B': lambda: thread_call(p, op, text)})
     except RuntimeError as e:
@@ -220,7 +240,7 @@ def check_schedule(case, ctx):
             raise Violation('concurrent call returns a different outcome than the sequential call', config=name, call=[op, text], thread=th,
                             switch_points=switch, switched_at=[list(x) for x in where], got=str(r[th])[:300], want=str(want)[:300])
     ctx.label('schedule:' + name)
-    if any(i in lazy for i in switch):
+    if any(i in lazy for i in switch) or (name in ENGINE_CONFIGS and switch and switch[0] < npoints):
         ctx.nontrivial([name, switch], sample={'config': name, 'switch_points': switch, 'functions': [list(s.points[i]) for i in switch if i < len(s.points)]})
 
 
@@ -230,6 +250,13 @@ def schedule_cases(max_points, k):
         for name in sorted(SCHED_CONFIGS):
             want, npoints, lazy = sequential(name)
             lim = min(npoints, max_points)
+            if name in ENGINE_CONFIGS:
+                # one pre-emption at every yield point (the other thread then runs its whole call)
+                for pt in range(min(npoints, max_points * 30)):
+                    i += 1
+                    if i % nshards == shard:
+                        yield {'config': name, 'switch': [pt]}
+                continue
             for kk in range(1, k + 1):
                 for sw in itertools.combinations(range(lim), kk):
                     # keep every schedule whose first pre-emption is at one of the first 40 points or inside a lazy initialiser
